@@ -32,7 +32,7 @@ ANCHORS = ['parse_one_cell', 'apply_but', 'parse_keywords', 'cellcard.py:split',
 REQUIRED_REACH = ['ParseMCNPCell.parse_one_cell', 'ParseMCNPCell.apply_but',
                   'ParseMCNPCell.parse_keywords']
 FAMILIES = ['trcl', 'mat-rho', 'rho-only', 'imp', 'u', 'fill', 'chain', 'forward',
-            'everything', 'base-has-all', 'lattice-cli']
+            'everything', 'base-has-all', 'lattice-cli', 'implicit-of-copy']
 _PER = {'quick': 16, 'thorough': 3000}
 
 SLOTS = [(-5.0, -5.0, 0.0), (0.0, -5.0, 1.0), (5.0, -5.0, -1.0),
@@ -192,7 +192,7 @@ def build(case):
                 'u': set(), 'fill': {'fill'}, 'chain': set(),
                 'forward': set(),
                 'everything': {'mat', 'rho', 'imp', 'fill'},
-                'base-has-all': set()}[fam]
+                'base-has-all': set(), 'implicit-of-copy': set()}[fam]
         extra = set(want)
         for name in ('mat', 'rho', 'imp', 'fill'):
             if rng.random() < 0.25:
@@ -275,6 +275,27 @@ def build(case):
         tgt.fill = M.Fill(universe=9)
         if 'fill' not in tgt.but:
             tgt.but.append('fill')
+    if fam == 'implicit-of-copy':
+        # the copy is cell 1: its moved surface has the number 1001, which
+        # another cell uses (a shell around the copy).  The numbers the
+        # converter generates for moved surfaces start right above the
+        # largest surface number (999): they must not land on 1001.
+        idmap = {1: 8, 2: 1}
+        for cel in deck.cells:
+            cel.id = idmap.get(cel.id, cel.id)
+            if cel.like is not None:
+                cel.like = idmap.get(cel.like, cel.like)
+        copy1 = deck.cell(1)
+        mot = deck.motion_of(copy1.trcl)
+        sur1 = deck.surf(1) if hasattr(deck, 'surf') else \
+            next(s for s in deck.surfs if s.id == 1)
+        cen = sur1.params[0:3] if sur1.kind == 's' else sur1.params[7:10]
+        cmain = mot.to_main(np.array(cen, dtype=float))
+        deck.surfs.append(M.Surf(31, 's', [float(v) for v in cmain] + [2.4]))
+        shell = M.Cell(30, mat=rng.randint(1, nmat), rho='-3.3',
+                       geom=M.AND(M.S(1001), M.S(-31)), imp={'n': '1'})
+        deck.cells.append(shell)
+        level0.append(shell)
     if fam == 'forward':
         # move a LIKE card before the card it refers to
         first = like_cells[0]
